@@ -18,6 +18,7 @@ RULES = [
     Rule('C17.R2', 'MUS controller map, percussion channel mapping and per-channel volume memory', 4),
     Rule('C17.R3', 'MUS division and tempo give 140 Hz within 2.5 %', 1),
     Rule('C17.R4', 'XMI delta/duration/tempo scale with one constant; division = tempo*3/25000; per-song division', 4),
+    Rule('C17.R5', 'XMI event list: a new event is inserted after the events already queued for its tick (stable order)', 1),
 ]
 EXPLANATION = ('Constant/table extraction from the AST of the converters and of BW_MidiSequencer::parseRMI, compared with the governing format tables encoded in the '
                'checker (DMX controller numbers, 140 Hz, 120 Hz). Thin claim: necessary conditions of fidelity; the converted event sequence is not decided.')
@@ -182,4 +183,45 @@ def analyse(facts, tier):
                     'song %s is written with timing[%s]: songs other than the first get a division computed from another song\'s tempo' % (found[2] if found else '?', found[1] if found else '?')))
     perc_t = facts.fn('xmi2mid_ExtractTracks', required=False)
     obls.append(Obl('C17.R4', cl.name, 'tempo is taken once per sequence', cl.loc, 'discharged' if 'tempo' in ks else 'finding', why='first tempo event sets the division; later ones are skipped'))
+    obls += r5_stable(facts)
     return obls
+
+
+
+def r5_stable(facts):
+    """The converter queues the note-off of every XMI note (start + duration) before it reads the following events; an event created
+    later for the same tick (the end-of-track meta in particular) must go AFTER what is queued: the list walk of xmi2mid_CreateNewEvent
+    inserts in front of the first queued event that is strictly later.  With `>=` the end-of-track overtakes a note-off of its tick and
+    the writer, which stops at end-of-track, drops that note-off."""
+    out = []
+    fn = facts.fn('xmi2mid_CreateNewEvent', required=False)
+    if fn is None:
+        return out
+    n = 0
+    for bid, b in fn.cfg.blocks.items():
+        c = b.get('cond')
+        if c is None or b.get('term') != 'IfStmt':
+            continue
+        for f in literals(c, True):
+            if f[0] != 'cmp':
+                continue
+            _, op, l, r = f
+            ls, rs = show(strip(l)), show(strip(r))
+            if 'next->time' in ls and strip(r).get('parm'):
+                pass
+            elif 'next->time' in rs and strip(l).get('parm'):
+                op = {'<': '>', '>': '<', '<=': '>=', '>=': '<='}.get(op, op)
+            else:
+                continue
+            # the true edge must lead to the insertion (a calloc)
+            tb = fn.cfg.blocks[b['succ'][0]]
+            if not any(short(callee_name(y)) == 'calloc' for st in tb['stmts'] for y in walk(st['s'])):
+                continue
+            n += 1
+            ok = op == '>'
+            out.append(Obl('C17.R5', fn.name, 'insert before the first queued event with next->time %s time' % op, b.get('cloc'), 'discharged' if ok else 'finding',
+                           why='strictly later: events of the same tick keep their creation order' if ok else
+                           'a new event overtakes the events already queued for its tick: the end-of-track meta lands before a note-off of the same tick, which the track writer then drops'))
+    if n < 1:
+        raise build.AnalysisBroken('C17.R5: the sorted insertion of xmi2mid_CreateNewEvent was not recognised')
+    return out
